@@ -520,9 +520,23 @@ func (m *Machine) model(extra *sym.Term) ([]ReplayVal, []string, bool) {
 		want = nil
 	}
 	var env map[string]uint64
+	// counterexample search over uninterpreted strconv: first restrict the tokens to a
+	// corpus of edge cases with their true values, so that a violation that exists for
+	// the real strconv is exhibited by a token on which the real functions really differ
+	var corpusQ *sym.Term
+	if len(apps) > 0 {
+		corpusQ = m.corpusConstraint(apps)
+	}
 	if want != nil || extra != nil {
 		for iter := 0; ; iter++ {
 			q := extra
+			if corpusQ != nil {
+				if q == nil {
+					q = corpusQ
+				} else {
+					q = m.Ctx.And(q, corpusQ)
+				}
+			}
 			for _, f := range m.ufFacts {
 				if q == nil {
 					q = f
@@ -532,6 +546,11 @@ func (m *Machine) model(extra *sym.Term) ([]ReplayVal, []string, bool) {
 			}
 			var r sym.Result
 			r, env = m.Solver.Check(q, want)
+			if r != sym.Sat && corpusQ != nil {
+				corpusQ = nil // no corpus witness: unrestricted search
+				iter = -1
+				continue
+			}
 			if r != sym.Sat {
 				if r == sym.Unsat && len(m.ufFacts) > 0 {
 					m.Stats.UFRefuted++
@@ -620,6 +639,91 @@ func (m *Machine) model(extra *sym.Term) ([]ReplayVal, []string, bool) {
 		obs = append(obs, o.Tag+"="+m.render(o.V, env))
 	}
 	return out, obs, true
+}
+
+// ufCorpus: tokens on which the strconv functions are sensitive to base, bit size,
+// trimming and spelling.
+var ufCorpus = []string{"0", "1", "7", "-", "+", "a", "t", "T", "f", "F", "x", " ", "",
+	"-1", "+5", "10", "07", "1.", ".5", "1e", "0x", "on", "no", " 5", "5 ", "1_", "_1", "tT",
+	"1e3", "010", "0x1", "1_0", "0b1", "0o7", "inf", "Inf", "NaN", "nan", "1.5", "-.5", "+.5", "1e+", "yes", "off", " 10", "10 ", "255", "256", "-00", "0_1",
+	"0x10", "1_00", "1e10", "true", "True", "TRUE", "tRUE", "0b11", "0o17", "+Inf", "-Inf", "+inf", "1e-3", "0x1p", "1.50", "-128", "128 ", " 128", "0X1F", "1__0", "1E10",
+	"false", "False", "FALSE", "0x1p4", "1_000", "32768", "65536", "-0x10", "+0x10", "1e400", "0b101", "1.e+1",
+	"0x1p-2", "-32769", "0x7fff", "999999", "1_0_0_", "Infini",
+	"2147483", "0x1p-10", "1000000", "-1e-400",
+	"Infinity", "infinity", "INFINITY", "+1_0_0_0", "0x1.8p+1", "99999999", "-9999999", "1e-99999"}
+
+// corpusConstraint restricts every token fed to an uninterpreted function to the
+// corpus tokens of its length and states the true values of all functions involved.
+func (m *Machine) corpusConstraint(apps []*sym.Term) *sym.Term {
+	c := m.Ctx
+	type tup struct {
+		args []*sym.Term
+		key  string
+	}
+	seen := map[string]bool{}
+	var tuples []tup
+	namesByLen := map[int]map[string]int{}
+	for _, app := range apps {
+		var sb strings.Builder
+		for _, a := range app.Args {
+			sb.WriteString(a.String())
+			sb.WriteByte(' ')
+		}
+		if !seen[sb.String()] {
+			seen[sb.String()] = true
+			tuples = append(tuples, tup{app.Args, sb.String()})
+		}
+		if namesByLen[len(app.Args)] == nil {
+			namesByLen[len(app.Args)] = map[string]int{}
+		}
+		namesByLen[len(app.Args)][app.Name] = app.W
+	}
+	var q *sym.Term = c.True
+	for _, t := range tuples {
+		var any *sym.Term = c.False
+		for _, tok := range ufCorpus {
+			if len(tok) != len(t.args) {
+				continue
+			}
+			var eq *sym.Term = c.True
+			for i := range t.args {
+				eq = c.And(eq, c.Eq(t.args[i], c.BV(8, uint64(tok[i]))))
+			}
+			any = c.Or(any, eq)
+		}
+		q = c.And(q, any)
+	}
+	for n, names := range namesByLen {
+		var ns []string
+		for name := range names {
+			ns = append(ns, name)
+		}
+		sort.Strings(ns)
+		for _, tok := range ufCorpus {
+			if len(tok) != n {
+				continue
+			}
+			cargs := make([]*sym.Term, n)
+			for i := 0; i < n; i++ {
+				cargs[i] = c.BV(8, uint64(tok[i]))
+			}
+			for _, name := range ns {
+				w := names[name]
+				real, ok := ufReal(name, []byte(tok))
+				if !ok {
+					continue
+				}
+				var rc *sym.Term
+				if w == 0 {
+					rc = c.Bool(real != 0)
+				} else {
+					rc = c.BV(w, real)
+				}
+				q = c.And(q, c.Eq(c.UF(name, w, cargs...), rc))
+			}
+		}
+	}
+	return q
 }
 
 func hasUF(t *sym.Term) bool {
@@ -747,13 +851,17 @@ func collectValue(v Value, vars map[string]*sym.Term) {
 func (m *Machine) failWith(kind, msg string, extra *sym.Term) {
 	nd, obs, ok := m.model(extra)
 	if !ok {
-		if m.modelRefuted {
-			if extra == nil {
+		if !m.modelRefuted {
+			// no model consistent with the real strconv could be exhibited: undecided
+			m.inconcl = true
+		}
+		if extra == nil {
+			if m.modelRefuted {
 				m.end("infeasible", "path refuted by ground facts about strconv")
 			}
-			return
+			m.end("inconclusive", "no model for a failing path")
 		}
-		m.inconcl = true
+		return
 	}
 	m.Stats.AssertsFailed++
 	m.failure = &Failure{Kind: kind, Msg: msg, Nondets: nd, Obs: obs}
@@ -849,10 +957,9 @@ func (m *Machine) RunPath(entry *ssa.Function, sample bool) (res PathResult) {
 				nd, obs, ok := m.model(nil)
 				if !ok && m.modelRefuted {
 					res.End = "infeasible"
+				} else if !ok {
+					m.inconcl = true
 				} else {
-					if !ok {
-						m.inconcl = true
-					}
 					m.failure = &Failure{Kind: "panic", Msg: "uncaught panic: " + res.Detail, Nondets: nd, Obs: obs}
 				}
 			default:
